@@ -745,6 +745,8 @@ def floorflush(ctx: Any) -> List[Ob]:
             ok_sel = any([norm(a) for a in c.args] == names for c in sel)
     obs.append(ob(R, g, 'self.async_all_by_details(name, type_, class_)', 'the flush considers exactly the cached records of the same name, type and class', ok_sel))
     # ... and that selector takes a record iff BOTH its type and its class are the ones asked for (decision table)
+    from .c05 import _element_selection
+
     sel_f = prog.func('zeroconf._cache.DNSCache.async_all_by_details')
     p_t, p_c = sel_f.params[2], sel_f.params[3]
 
@@ -753,8 +755,8 @@ def floorflush(ctx: Any) -> List[Ob]:
 
     for same_t in (True, False):
         for same_c in (True, False):
-            ocs, unds = traces(ctx, sel_f, {p_t: 1, p_c: 1, '.type': 1 if same_t else 28, '.class_': 1 if same_c else 255, '.get()': {'r': 'r'}}, eff_sel, loop_bound=1, for_iter=lambda n, e: True)
-            took = {('TAKE' in t) for t in ocs}
+            # the element-selection reading of C05.LOOKUPS (a loop that appends, a comprehension, a generator)
+            took, _rets, unds = _element_selection(ctx, sel_f, {p_t: 1, p_c: 1, '.type': 1 if same_t else 28, '.class_': 1 if same_c else 255, '.get()': {'r': 'r'}})
             obs.append(ob(R, sel_f, f'cached record: type {"equal" if same_t else "different"}, class {"equal" if same_c else "different"}', f'it is {"selected" if same_t and same_c else "not selected"} for the flush', took == {same_t and same_c} and not unds, f'selected on {took}; undecided {unds}'))
     # the selector looks the name up under the SAME folding the records were stored under (the lower-cased key): the key
     # obligations of C05.KEYS for the cache methods the flush reaches
